@@ -294,7 +294,8 @@ def run(ctx):
         take(vs)
     ctx.count('warmup-injections', len(inj))
     jobs = sessions(ctx)
-    res = core.pmap(_session, jobs, chunksize=4)
+    jobs.sort(key=lambda j: -j[3])      # longest sessions first: the 10010-minute ones are a serial tail otherwise
+    res = core.pmap(_session, jobs, chunksize=4 if ctx.quick else 1)
     for j, r in zip(jobs, res):
         cov['transitions'] += r['minutes']
         ctx.count('array-comparisons-at-hooks', r['comparisons'])
